@@ -1,4 +1,282 @@
-/- C13 property theorems (under construction) -/
-import Stgutg.Model.Builders
+/-
+  C13 — gNB-side NGAP messages carry the caller's values and all mandatory IEs.
+
+  Model: Stgutg.Model.Builders (hand templates for the 14 wrappers of packet.go and the 15 builders around them) and
+  Stgutg.Gen.Templates (probed templates for the other 35 builders), over the NGAP schema regenerated from /repo.
+  Specification: Stgutg.Spec.Ts38413 (procedure codes, message classes, mandatory IE tables, identifier ranges) and the
+  reference IE walker Stgutg.Spec.NgapView. Helper lemmas: Stgutg/Proofs/Builders.lean.
+
+  Every theorem is about `build E t plmn args` for ALL arguments `args`, ALL `TestPlmn` states `plmn` and ALL externals
+  `E` (net.ParseIP, hex.DecodeString): "whenever the builder returns a PDU, then …".
+-/
+import Stgutg.Proofs.Builders
+
 namespace Stgutg.Props.C13
+open Stgutg Stgutg.Aper Stgutg.Builders Stgutg.Spec.NgapView Stgutg.Spec.Ts38413 Stgutg.Model.Convert
+open Stgutg.Proofs.Builders
+
+set_option maxRecDepth 1000000 in
+/-- table fact (kernel evaluation over the hand-written and the regenerated probed templates) -/
+theorem class_table : allTable.all classOK = true := by decide +kernel
+
+/-- **C13_class**: every PDU a builder returns is the NGAP-PDU alternative (initiating message / successful outcome /
+    unsuccessful outcome) and carries the procedure code that TS 38.413 clause 9.4.3 / 9.4.7 give for its message. -/
+theorem C13_class (E : Ext) (t : Template) (ht : t ∈ allTable) (plmn : Bytes) (args : List Val) (pdu : Val)
+    (h : build E t plmn args = .ok pdu) :
+    pduPresent pdu = some ((msgClass t.message).index + 1) ∧ pduProc pdu = some (procCode t.message : Int) := by
+  obtain ⟨tm, htm, _, hp⟩ := build_ok_skeleton E t plmn args pdu h
+  have hT := List.all_eq_true.mp class_table t ht
+  have hS := List.all_eq_true.mp hT tm htm
+  simp only [Bool.and_eq_true, decide_eq_true_eq] at hS
+  subst hp
+  exact ⟨pduPresent_eval E _ _ tm _ hS.1, pduProc_eval E _ _ tm _ hS.2⟩
+
+set_option maxRecDepth 1000000 in
+theorem mandatory_table : allTable.all mandOK = true := by decide +kernel
+
+/-- **C13_mandatory**: for the messages the emulator sends (those with a transcribed clause 9.2 table), every IE with
+    presence M is in the PDU the builder returns, with the criticality the standard assigns. `hs` is the list of
+    (IE id, criticality) of ALL IEs of the PDU, in order. -/
+theorem C13_mandatory (E : Ext) (t : Template) (ht : t ∈ allTable) (ms : List (Nat × Nat)) (hm : mandatory t.message = some ms)
+    (plmn : Bytes) (args : List Val) (pdu : Val) (h : build E t plmn args = .ok pdu) :
+    ∃ hs : List (Int × Nat), headers pdu = some (hs.map some) ∧ ∀ m ∈ ms, ((m.1 : Int), m.2) ∈ hs := by
+  obtain ⟨tm, htm, _, hp⟩ := build_ok_skeleton E t plmn args pdu h
+  have hT := List.all_eq_true.mp mandatory_table t ht
+  unfold mandOK at hT
+  rw [hm] at hT
+  have hS := List.all_eq_true.mp hT tm htm
+  cases hh : Tm.headers tm with
+  | none => simp [hh] at hS
+  | some hs =>
+    simp only [hh] at hS
+    refine ⟨hs, ?_, ?_⟩
+    · subst hp; exact headers_eval E _ _ tm hs hh
+    · intro m hmem
+      have := List.all_eq_true.mp hS m hmem
+      simpa using this
+
+
+set_option maxRecDepth 1000000 in
+theorem amf_table : allTable.all amfOK = true := by decide +kernel
+set_option maxRecDepth 1000000 in
+theorem ran_table : allTable.all ranOK = true := by decide +kernel
+set_option maxRecDepth 1000000 in
+theorem nas_table : allTable.all nasOK = true := by decide +kernel
+set_option maxRecDepth 1000000 in
+theorem psi_table : allTable.all psiOK = true := by decide +kernel
+set_option maxRecDepth 1000000 in
+theorem psilist_table : allTable.all psiListOK = true := by decide +kernel
+set_option maxRecDepth 1000000 in
+theorem name_table : allTable.all nameOK = true := by decide +kernel
+set_option maxRecDepth 1000000 in
+theorem gnb_table : allTable.all gnbOK = true := by decide +kernel
+set_option maxRecDepth 1000000 in
+theorem ip_table : allTable.all ipOK = true := by decide +kernel
+
+
+theorem effEnv_arg (t : Template) (plmn : Bytes) (args : List Val) (i : Nat) (a : Val) (ha : args[i]? = some a) :
+    (effEnv t plmn args).arg i = a := by
+  simp [effEnv, BEnv.arg, ha]
+
+/-- **C13_carries (AMF-UE-NGAP-ID)**: a builder that takes an AMF-UE-NGAP-ID returns a PDU with exactly one
+    AMF UE NGAP ID IE (Source AMF UE NGAP ID in PATH SWITCH REQUEST) whose value is the argument. -/
+theorem C13_carries_amf (E : Ext) (t : Template) (ht : t ∈ allTable) (i : Nat) (hi : roleIdx t .amf = some i)
+    (plmn : Bytes) (args : List Val) (pdu : Val) (h : build E t plmn args = .ok pdu) (a : Val) (ha : args[i]? = some a) :
+    ∃ v, ieValuesById pdu (amfIe t.message : Int) = some [some v] ∧ Val.at [0] v = some a := by
+  obtain ⟨tm, htm, _, hp⟩ := build_ok_skeleton E t plmn args pdu h
+  have hT := List.all_eq_true.mp amf_table t ht
+  unfold amfOK at hT
+  rw [hi] at hT
+  have hS := List.all_eq_true.mp hT tm htm
+  obtain ⟨v, h1, h2⟩ := carriesHole_sound E (effEnv t plmn args) .nil tm _ _ _ hS
+  subst hp
+  exact ⟨v, h1, by rw [h2]; simp [evalHole, effEnv_arg t plmn args i a ha]⟩
+
+/-- **C13_carries (RAN-UE-NGAP-ID)** -/
+theorem C13_carries_ran (E : Ext) (t : Template) (ht : t ∈ allTable) (i : Nat) (hi : roleIdx t .ran = some i)
+    (plmn : Bytes) (args : List Val) (pdu : Val) (h : build E t plmn args = .ok pdu) (a : Val) (ha : args[i]? = some a) :
+    ∃ v, ieValuesById pdu (ieRANUENGAPID : Int) = some [some v] ∧ Val.at [0] v = some a := by
+  obtain ⟨tm, htm, _, hp⟩ := build_ok_skeleton E t plmn args pdu h
+  have hT := List.all_eq_true.mp ran_table t ht
+  unfold ranOK at hT
+  rw [hi] at hT
+  have hS := List.all_eq_true.mp hT tm htm
+  obtain ⟨v, h1, h2⟩ := carriesHole_sound E (effEnv t plmn args) .nil tm _ _ _ hS
+  subst hp
+  exact ⟨v, h1, by rw [h2]; simp [evalHole, effEnv_arg t plmn args i a ha]⟩
+
+/-- **C13_carries (NAS-PDU)**: exactly one NAS-PDU IE whose octets are the argument (a nil slice is the empty string);
+    only a builder whose control flow tests the argument (`i ∈ t.dims`: PDU SESSION RESOURCE RELEASE COMMAND, `if nasPdu != nil`)
+    may leave the IE out instead. -/
+theorem C13_carries_nas (E : Ext) (t : Template) (ht : t ∈ allTable) (i : Nat) (hi : roleIdx t .nas = some i)
+    (plmn : Bytes) (args : List Val) (pdu : Val) (h : build E t plmn args = .ok pdu) (a : Val) (ha : args[i]? = some a) :
+    (∃ v, ieValuesById pdu (ieNASPDU : Int) = some [some v] ∧ Val.at [0] v = some (.octs (bytesOf a))) ∨
+    (i ∈ t.dims ∧ ieValuesById pdu (ieNASPDU : Int) = some []) := by
+  obtain ⟨tm, htm, _, hp⟩ := build_ok_skeleton E t plmn args pdu h
+  have hT := List.all_eq_true.mp nas_table t ht
+  unfold nasOK at hT
+  rw [hi] at hT
+  have hS := List.all_eq_true.mp hT tm htm
+  simp only [Bool.or_eq_true, Bool.and_eq_true] at hS
+  subst hp
+  rcases hS with hS | ⟨hd, hS⟩
+  · obtain ⟨v, h1, h2⟩ := carriesHole_sound E (effEnv t plmn args) .nil tm _ _ _ hS
+    exact .inl ⟨v, h1, by rw [h2]; simp [evalHole, effEnv_arg t plmn args i a ha]⟩
+  · exact .inr ⟨by simpa using hd, lacksIE_sound E _ _ tm _ hS⟩
+
+/-- **C13_carries (PDU session id)**: the first item of the setup / released list of the response starts with the
+    PDU Session ID the caller gave (`Val.at [0,0,0,0]`: list container → list → item 0 → PDUSessionID → value). -/
+theorem C13_carries_psi (E : Ext) (t : Template) (ht : t ∈ allTable) (i : Nat) (hi : roleIdx t .psi = some i)
+    (plmn : Bytes) (args : List Val) (pdu : Val) (h : build E t plmn args = .ok pdu) (a : Val) (ha : args[i]? = some a) :
+    ∃ id v, psiItemIe t.message = some id ∧ ieValuesById pdu (id : Int) = some [some v] ∧ Val.at [0, 0, 0, 0] v = some a := by
+  obtain ⟨tm, htm, _, hp⟩ := build_ok_skeleton E t plmn args pdu h
+  have hT := List.all_eq_true.mp psi_table t ht
+  unfold psiOK at hT
+  rw [hi] at hT
+  cases hid : psiItemIe t.message with
+  | none => simp [hid] at hT
+  | some id =>
+    simp only [hid] at hT
+    have hS := List.all_eq_true.mp hT tm htm
+    obtain ⟨v, h1, h2⟩ := carriesHole_sound E (effEnv t plmn args) .nil tm _ _ _ hS
+    subst hp
+    exact ⟨id, v, rfl, h1, by rw [h2]; simp [evalHole, effEnv_arg t plmn args i a ha]⟩
+
+/-- **C13_carries (RAN node name)** (the NG Setup wrapper) -/
+theorem C13_carries_name (E : Ext) (t : Template) (ht : t ∈ allTable) (i : Nat) (hi : roleIdx t .name = some i)
+    (plmn : Bytes) (args : List Val) (pdu : Val) (h : build E t plmn args = .ok pdu) (a : Val) (ha : args[i]? = some a) :
+    ∃ v, ieValuesById pdu (ieRANNodeName : Int) = some [some v] ∧ Val.at [0] v = some a := by
+  obtain ⟨tm, htm, _, hp⟩ := build_ok_skeleton E t plmn args pdu h
+  have hT := List.all_eq_true.mp name_table t ht
+  unfold nameOK at hT
+  rw [hi] at hT
+  have hS := List.all_eq_true.mp hT tm htm
+  obtain ⟨v, h1, h2⟩ := carriesHole_sound E (effEnv t plmn args) .nil tm _ _ _ hS
+  subst hp
+  exact ⟨v, h1, by rw [h2]; simp [evalHole, effEnv_arg t plmn args i a ha]⟩
+
+
+theorem cls_psilist_slice (E : Ext) (xs : List Val) : cls E .psilist (.slice xs) ≠ 0 := by
+  cases xs <;> simp [cls]
+
+/-- **C13_carries (PDU session id list)**: UE CONTEXT RELEASE COMPLETE / REQUEST built from a non-nil list carry exactly one
+    PDU Session Resource List whose items are the caller's ids, in order; built from a nil list they carry none. -/
+theorem C13_carries_psilist (E : Ext) (t : Template) (ht : t ∈ allTable) (i : Nat) (hi : roleIdx t .psilist = some i)
+    (plmn : Bytes) (args : List Val) (pdu : Val) (h : build E t plmn args = .ok pdu) :
+    ∃ id, psiListIe t.message = some id ∧
+      (∀ xs, args[i]? = some (.slice xs) →
+        ieValuesById pdu (id : Int) = some [some (.struct [.slice (xs.map fun x => .struct [.struct [x], .nil])])]) ∧
+      (args[i]? = some .nil → ieValuesById pdu (id : Int) = some []) := by
+  obtain ⟨c, hc, tm, hcls, hout, _, hp⟩ := build_ok E t plmn args pdu h
+  have hT := List.all_eq_true.mp psilist_table t ht
+  unfold psiListOK at hT
+  rw [hi] at hT
+  cases hid : psiListIe t.message with
+  | none => simp [hid] at hT
+  | some id =>
+    simp only [hid, Bool.and_eq_true, beq_iff_eq] at hT
+    obtain ⟨⟨hdims, hrole⟩, hcases⟩ := hT
+    have hC := List.all_eq_true.mp hcases c hc
+    rw [hout] at hC
+    dsimp only at hC
+    have hclass : c.cls = [cls E .psilist ((effEnv t plmn args).arg i)] := by
+      rw [hcls]; simp [classes, hdims, hrole]
+    subst hp
+    refine ⟨id, rfl, ?_, ?_⟩
+    · intro xs ha
+      have harg := effEnv_arg t plmn args i _ ha
+      have hne : ¬ c.cls = [0] := by
+        rw [hclass, harg]
+        have := cls_psilist_slice E xs
+        simp [this]
+      rw [if_neg hne] at hC
+      exact carriesList_sound E (effEnv t plmn args) .nil tm _ i xs harg hC
+    · intro ha
+      have harg := effEnv_arg t plmn args i _ ha
+      have heq : c.cls = [0] := by
+        rw [hclass, harg]; simp [cls]
+      rw [if_pos heq] at hC
+      exact lacksIE_sound E _ _ tm _ hC
+
+/-- **C13_carries (gNB id, NG SETUP REQUEST)**: the Global RAN Node ID holds the gNB id octets with the bit length the
+    caller gave (`Val.at [1,0,1,1,0]`: GlobalGNBID alternative → GNBID field → gNB-ID alternative → BIT STRING). -/
+theorem C13_carries_gnbid_ngsetup (E : Ext) (t : Template) (ht : t ∈ allTable) (i j : Nat)
+    (hi : roleIdx t .gnbid = some i) (hj : roleIdx t .bitlen = some j)
+    (plmn : Bytes) (args : List Val) (pdu : Val) (h : build E t plmn args = .ok pdu)
+    (g bl : Val) (hg : args[i]? = some g) (hb : args[j]? = some bl) :
+    ∃ v, ieValuesById pdu (ieGlobalRANNodeID : Int) = some [some v] ∧
+      Val.at [1, 0, 1, 1, 0] v = some (.bits (bytesOf g) (natOf bl)) := by
+  obtain ⟨tm, htm, _, hp⟩ := build_ok_skeleton E t plmn args pdu h
+  have hT := List.all_eq_true.mp gnb_table t ht
+  unfold gnbOK at hT
+  rw [hi, hj] at hT
+  cases hcell : roleIdx t .cellid with
+  | some k => simp [hcell] at hT
+  | none =>
+    simp only [hcell] at hT
+    have hS := List.all_eq_true.mp hT tm htm
+    obtain ⟨v, h1, h2⟩ := carriesHole_sound E (effEnv t plmn args) .nil tm _ _ _ hS
+    subst hp
+    exact ⟨v, h1, by rw [h2]; simp [evalHole, effEnv_arg t plmn args i g hg, effEnv_arg t plmn args j bl hb]⟩
+
+/-- **C13_carries (gNB id and cell id, HANDOVER REQUIRED)**: the Target ID holds the gNB id as a BIT STRING of all its octets;
+    the source-to-target transparent container is the encoding (`marshalTransfer 1413`, "valueExt") of a
+    SourceNGRANNode-ToTargetNGRANNode-TransparentContainer whose target cell NR CGI is gNB id ++ cell id, 36 bits. -/
+theorem C13_carries_gnbid_handover (E : Ext) (t : Template) (ht : t ∈ allTable) (i j : Nat)
+    (hi : roleIdx t .gnbid = some i) (hj : roleIdx t .cellid = some j)
+    (plmn : Bytes) (args : List Val) (pdu : Val) (h : build E t plmn args = .ok pdu)
+    (g c : Val) (hg : args[i]? = some g) (hc : args[j]? = some c) :
+    (∃ v, ieValuesById pdu (ieTargetID : Int) = some [some v] ∧
+      Val.at [1, 0, 0, 1, 0, 1, 1, 0] v = some (.bits (bytesOf g) (8 * (bytesOf g).length))) ∧
+    (∃ v b w, ieValuesById pdu (ieSourceToTargetTransparentContainer : Int) = some [some v] ∧ Val.at [0] v = some (.octs b) ∧
+      marshalTransfer 1413 w = .ok b ∧ Val.at [3, 1, 0, 1, 0] w = some (.bits (bytesOf g ++ bytesOf c) 36)) := by
+  obtain ⟨tm, htm, henc, hp⟩ := build_ok_skeleton E t plmn args pdu h
+  have hT := List.all_eq_true.mp gnb_table t ht
+  unfold gnbOK at hT
+  rw [hi, hj] at hT
+  cases hbl : roleIdx t .bitlen with
+  | some k => simp [hbl] at hT
+  | none =>
+    simp only [hbl] at hT
+    have hS := List.all_eq_true.mp hT tm htm
+    simp only [Bool.and_eq_true] at hS
+    obtain ⟨v, h1, h2⟩ := carriesHole_sound E (effEnv t plmn args) .nil tm _ _ _ hS.1
+    obtain ⟨v', b, w, k1, k2, k3, k4⟩ := carriesEnc_sound E (effEnv t plmn args) .nil tm _ _ _ _ _ hS.2 henc
+    subst hp
+    refine ⟨⟨v, h1, ?_⟩, ⟨v', b, w, k1, k2, k3, ?_⟩⟩
+    · rw [h2]; simp [evalHole, effEnv_arg t plmn args i g hg]
+    · rw [k4]; simp [evalHole, effEnv_arg t plmn args i g hg, effEnv_arg t plmn args j c hc]
+
+/-- **C13_carries (GTP transport address)**: the first item of the setup list holds octets `b` that are the encoding
+    (`marshalTransfer 1360`, "valueExt") of a PDUSessionResourceSetupResponseTransfer `w` whose GTP tunnel transport layer
+    address (`Val.at [0,0,1,0,0,0]`) is `IPAddressToNgap(ipv4, "")` — 32 bits, the four octets of `net.ParseIP(ipv4).To4()`. -/
+theorem C13_carries_tla (E : Ext) (t : Template) (ht : t ∈ allTable) (i : Nat) (hi : roleIdx t .ip = some i)
+    (plmn : Bytes) (args : List Val) (pdu : Val) (h : build E t plmn args = .ok pdu) :
+    ∃ id v b w, psiItemIe t.message = some id ∧ ieValuesById pdu (id : Int) = some [some v] ∧
+      Val.at [0, 0, 1] v = some (.octs b) ∧ marshalTransfer 1360 w = .ok b ∧
+      Val.at [0, 0, 1, 0, 0, 0] w = some (evalHole E { plmn := plmn, args := args } .nil (.ip4 i)) := by
+  obtain ⟨tm, htm, henc, hp⟩ := build_ok_skeleton E t plmn args pdu h
+  have hT := List.all_eq_true.mp ip_table t ht
+  unfold ipOK at hT
+  rw [hi] at hT
+  cases hid : psiItemIe t.message with
+  | none => simp [hid] at hT
+  | some id =>
+    simp only [hid] at hT
+    have hS := List.all_eq_true.mp hT tm htm
+    obtain ⟨v, b, w, k1, k2, k3, k4⟩ := carriesEnc_sound E (effEnv t plmn args) .nil tm _ _ _ _ _ hS henc
+    subst hp
+    refine ⟨id, v, b, w, rfl, k1, k2, k3, ?_⟩
+    rw [k4]; simp [evalHole, BEnv.arg, effEnv]
+
+/-- what `evalHole … (.ip4 i)` is: the model of `ngapConvert.IPAddressToNgap(ipv4, "")` (Model/Convert.lean) -/
+theorem ip4_hole (E : Ext) (plmn : Bytes) (args : List Val) (i : Nat) (s : Bytes) (ha : args[i]? = some (.str s))
+    (b : BitStr) (hb : ipAddressToNgap E s [] = .ok b) :
+    evalHole E { plmn := plmn, args := args } .nil (.ip4 i) = .bits b.bytes b.bitLength := by
+  simp [evalHole, BEnv.arg, ha, bytesOf, hb]
+
+
+set_option maxRecDepth 1000000 in
+theorem plmn_table : allTable.all plmnOK = true := by decide +kernel
+
 end Stgutg.Props.C13
